@@ -186,6 +186,8 @@ def build_engine(variant):
         srcs.append(os.path.join(VERIF, "engine/common/vf_runner.cpp"))
     if v["dsched"]:
         srcs.append(os.path.join(VERIF, "engine/dsched/dsched.cpp"))
+    elif not v.get("norunner"):
+        srcs.append(os.path.join(VERIF, "engine/dsched/dsched_native.cpp"))
     hdrs = [os.path.join(VERIF, "engine/common/vf.h"), os.path.join(VERIF, "engine/dsched/dsched.h")]
     key = file_hash(srcs + hdrs) + v["std"] + " ".join(v["link"])
     stamp = os.path.join(d, "stamp")
